@@ -17,10 +17,13 @@ const (
 )
 
 func (m Mode) String() string {
-	if m == Parse {
+	switch m {
+	case Parse:
 		return "Parse"
+	case Validate:
+		return "Validate"
 	}
-	return "Validate"
+	return "Parse-through-zjson" // only used as a label by monitors that add the JSON front end as a third mode
 }
 
 // Env describes the execution: mode and data source.
@@ -349,6 +352,12 @@ func (e *evaluator) lookup(rec any, f *spec.Field) (val any, key string, ok bool
 	switch m := rec.(type) {
 	case nil:
 		return nil, key, true
+	case reflect.Value:
+		sf, ok := m.Type().FieldByName(key)
+		if !ok || !sf.IsExported() || len(sf.Index) != 1 {
+			return nil, key, true
+		}
+		return m.FieldByIndex(sf.Index).Interface(), key, true
 	case map[string]any:
 		return m[key], key, true
 	case map[string]string:
@@ -395,7 +404,12 @@ func recordKind(data any) string {
 		}
 		return "unknown" // named / other map types: coercible or not depending on convertibility; only judged for panics
 	case reflect.Struct:
-		return "unknown" // struct inputs are looked up by Go field name; exercised in C06/C14 only
+		if rv.Type() == reflect.TypeOf(time.Time{}) {
+			return "other"
+		}
+		// a Go struct as the record: fields are looked up by the same key as in a map (zog tag, else schema key), which must
+		// therefore be the name of an exported field; only plain exported fields are used by the generators
+		return "struct-record"
 	case reflect.String:
 		if IsAbsentParse(rv.String()) {
 			return "unknown" // blank string as struct data: the absent rule and the record rule disagree
@@ -423,6 +437,12 @@ func (e *evaluator) strct(n *spec.Node, data any, prior any, path string) any {
 					rv = rv.Elem()
 				}
 				rec = rv.Interface()
+			case "struct-record":
+				rv := reflect.ValueOf(data)
+				for rv.Kind() == reflect.Ptr {
+					rv = rv.Elem()
+				}
+				rec = rv
 			case "other":
 				e.issue(XIssue{Path: path, Code: "coerce", Dtype: "struct", Kind: "coerce", Node: n, Value: obs.Norm(data)})
 				return prior
